@@ -284,7 +284,89 @@ pub fn run(run: &RunInfo) -> Summary {
             acc.count("capped", 1);
         }
     });
+    // two clients in one process: the identity check of each client uses its own configured serial,
+    // whatever other clients of the process are configured with or have met
+    if !skip_for_replay(run, "c09/two-clients/") {
+        let other = "2AB4C0DE";
+        let st = dbx::explore(0, 1_000_000, |ctx| {
+            let first_done = ctx.any(3, "first-client-progress");
+            let (s2, t2) = [(other, SERIAL), (other, other), (SERIAL, other), (SERIAL, SERIAL), ("2ab4c0de", other)][ctx.any(5, "second-client")];
+            let sh: Sh = Rc::new(RefCell::new(std::mem::replace(ctx, Ctx::new(vec![], vec![], 0))));
+            let mut results = vec![];
+            let mut problems = vec![];
+            let mut log = String::new();
+            // client 1, configured for SERIAL and meeting SERIAL
+            let cfg1 = base_config();
+            let sc1 = Scenario::new(sh.clone(), Box::new(|t, _ctx, req, _x, _nth| Some(default_script(t, req, &Outcome::Ok, 1))));
+            let mut feig1 = None;
+            if first_done >= 1 {
+                match sc1.new_feig(cfg1.clone()) {
+                    Ok(f) => feig1 = Some(f),
+                    Err(e) => problems.push(format!("first client: Feig::new failed against its own terminal: {e}")),
+                }
+            }
+            if first_done >= 2 {
+                if let Some(f) = feig1.as_mut() {
+                    results.push(format!("client 1 read_card -> {}", sc1.run(f, &Op::ReadCard).short()));
+                }
+            }
+            problems.extend(verify(&sc1.sim.w.borrow().t, &cfg1).into_iter().map(|p| format!("first client: {p}")));
+            // client 2 with its own terminal
+            let mut cfg2 = base_config();
+            cfg2.feig_serial = s2.to_string();
+            let same = s2.eq_ignore_ascii_case(t2);
+            let hook: Hook = Box::new(move |t, _ctx, req, x, _nth| {
+                let mut steps = default_script(t, req, &Outcome::Ok, 1);
+                if x == Xch::H2 && !same {
+                    steps.insert(0, Step::Note("serial:wrong".into()));
+                }
+                Some(steps)
+            });
+            {
+                let sc2 = Scenario::new(sh.clone(), hook);
+                sc2.sim.w.borrow_mut().t.serial = t2.to_string();
+                match sc2.new_feig(cfg2.clone()) {
+                    Err(e) => {
+                        results.push(format!("client 2 new -> {e}"));
+                        if same {
+                            problems.push(format!("second client (configured {s2}, terminal reports {t2}): Feig::new failed although nothing went wrong on the connection: {e}"));
+                        }
+                    }
+                    Ok(mut f) => {
+                        results.push("client 2 new -> ok".into());
+                        results.push(format!("client 2 read_card -> {}", sc2.run(&mut f, &Op::ReadCard).short()));
+                        drop(f);
+                    }
+                }
+                let w = sc2.sim.w.borrow();
+                problems.extend(verify(&w.t, &cfg2).into_iter().map(|p| format!("second client (configured {s2}, terminal reports {t2}): {p}")));
+                log = render_log(&w.t);
+                if !same {
+                    acc.count("w_second_client_foreign", 1);
+                } else if w.t.conns.len() == 1 {
+                    acc.count("w_second_client_own", 1);
+                }
+                acc.set("outcomes", h64(&("two-clients", &results, w.t.conns.len())));
+            }
+            drop(feig1);
+            drop(sc1);
+            *ctx = Rc::try_unwrap(sh).ok().expect("context still shared").into_inner();
+            acc.count("executions", 1);
+            acc.count("transitions", 2);
+            if !problems.is_empty() {
+                let choices = ctx.choices();
+                acc.violation(viol(
+                    format!("c09/two-clients/choices={choices:?}"),
+                    format!("two clients in one process: client 1 configured {SERIAL} (progress {first_done}: 0 = constructed nothing, 1 = connected, 2 = ran read_card), client 2 configured {s2} against a terminal reporting {t2}\nresults:\n  {}\nviolations:\n  {}\nconnection log of client 2:\n{log}", results.join("\n  "), problems.join("\n  ")),
+                    0,
+                ));
+            }
+        });
+        acc.max("max_depth", st.max_depth);
+    }
     for (c, w) in [
+        ("w_second_client_foreign", "a second client of the process met a terminal with the first client's (not its own) serial number"),
+        ("w_second_client_own", "a second client of the process was accepted by its own terminal on one connection"),
         ("w_fault_reconnect", "a fault was followed by a fresh, vetted connection"),
         ("w_just_in_time_kept", "a reply one millisecond before the time-out kept the connection"),
         ("w_wrong_serial", "a terminal with a different serial number was met"),
@@ -305,7 +387,7 @@ pub fn run(run: &RunInfo) -> Summary {
         transitions: acc.get("transitions"),
         traces_validated: execs,
         distinct_nontrivial: acc.set_len("outcomes"),
-        rule: format!("real Feig client against the simulated terminal (paused clock): 7 scenarios (Feig::new, then read_card / begin / commit idle / cancel idle / commit and cancel with another transaction open / configure, then a further read_card) x every placement of <= {budget} fault(s): at every terminal-to-client packet (handshake included) one of close, close after half a packet, reset, undecodable body, foreign control field, NACK, silence, reply 1 ms after / 1 ms before the time-out, wrong serial, serial differing in case; and the peer closing the idle connection before any operation. Oracle on the global connection log"),
+        rule: format!("real Feig client against the simulated terminal (paused clock): 7 scenarios (Feig::new, then read_card / begin / commit idle / cancel idle / commit and cancel with another transaction open / configure, then a further read_card) x every placement of <= {budget} fault(s): at every terminal-to-client packet (handshake included) one of close, close after half a packet, reset, undecodable body, foreign control field, NACK, silence, reply 1 ms after / 1 ms before the time-out, wrong serial, serial differing in case; and the peer closing the idle connection before any operation; plus two clients in one process (the first at three stages of progress) x 5 pairs of configured / reported serial number of the second. Oracle on the global connection log"),
         exhaustive: true,
         required_witnesses: vec![
             "a fault was followed by a fresh, vetted connection".into(),
@@ -314,6 +396,8 @@ pub fn run(run: &RunInfo) -> Summary {
             "a serial number differing only in case was accepted".into(),
             "the peer closed an idle connection".into(),
             "a fault-free history used a single connection".into(),
+            "a second client of the process met a terminal with the first client's (not its own) serial number".into(),
+            "a second client of the process was accepted by its own terminal on one connection".into(),
         ],
         assumptions: vec!["a reply exactly at the time-out instant is not tested (tie)".into(), "thorough: all pairs of faults; more than two faults per history are not explored".into()],
         bounds: json!({"fault_budget": budget, "scenarios": scs.len()}),
